@@ -84,6 +84,10 @@ CHECKS = {
          'Bounded exhaustive verification (enumerative mode): every point of the grammar - all sub-commands, all documented options, one- and two-step transformation chains, both tools - yields exactly the formula (class, names, rows) of the documented library call.',
          'Trusted: the table of documented library calls written from the help texts; in-memory file stub for save; CrossHair accounting. Outside: larger arguments, argv outside the grammar.',
          'DESIGN.md section 3 C17'),
+ 'C18': ('CrossHair/z3-accounted exhaustive walk of a wide argv grammar (numbers across the legal boundaries, non-numeric tokens, missing/extra arguments, bad files) through the real main() of the four tools, classified against strict readers',
+         'Bounded exhaustive verification (enumerative mode): every argv of the grammar ends in exactly one of: a complete formula accepted by the strict reader of the chosen format with exit 0, a help text, or a non-zero exit with empty stdout and comment-prefixed stderr; any escaping exception is reported with its argv.',
+         'Trusted: strict readers of C06/C12, stubs for stdio/SIGINT/virtual files, CrossHair accounting. Outside: argv outside the grammar.',
+         'DESIGN.md section 3 C18'),
 }
 NA = {}
 
